@@ -768,7 +768,7 @@ func c03ColdStripes(run *evid.Run) {
 		cfg := harness.ProxyCfg{L2: true, L1Kind: "std", Locked: true, MultiReader: mr, Concurrency: 12, Race: true}
 		p, err := harness.StartProxy(cfg)
 		if err != nil {
-			run.Inconclusive("cannot start memproxy: " + err.Error())
+			startFailure(run, cfg.Name(), err)
 			return
 		}
 		var cls []*wire.Client
@@ -846,7 +846,7 @@ func c03Stress(run *evid.Run) {
 		cfg := harness.ProxyCfg{L2: true, L1Kind: "std", Locked: true, MultiReader: mr, Concurrency: 2}
 		p, err := harness.StartProxy(cfg)
 		if err != nil {
-			run.Inconclusive("cannot start memproxy: " + err.Error())
+			startFailure(run, cfg.Name(), err)
 			return
 		}
 		rng := rand.New(rand.NewSource(run.Seed()*87 + 1))
